@@ -51,6 +51,11 @@ def run(ctx, proof):
     mism = campaign.run_cases(ctx, cases, ORACLES)
     cases_ref = [dict(c, comp="superadditive") for c in cases[::3]]
     mism += campaign.run_cases(ctx, cases_ref, [])
+    # "repeated invocation on one game object": ONE cached-computer object whose knowledge grows, shrinks and returns; after
+    # every compute its table must equal what the reference computer gives for the same knowledge (and the model's table)
+    mism += campaign.run_histories(ctx, ["superadditive_cached"], "sa",
+                                   [(3, 15, 12), (4, 10, 14), (5, 3, 12)] if ctx.quick else [(3, 150, 30), (4, 120, 30), (5, 40, 24), (6, 6, 16)],
+                                   ORACLES)
 
     # impl/impl only, larger n
     big = [(7, 2, 2), (8, 1, 1)] if ctx.quick else [(7, 6, 4), (8, 3, 2)]
